@@ -84,6 +84,14 @@ func c02SSO(r *core.Run, idx int, rng *rand.Rand) {
 			r.Count("consumer_services_with_a_response_location", 1)
 		}
 	}
+	if rng.Intn(4) == 0 {
+		// the service provider's document is also offered inside an aggregate, behind another entity with a consumer
+		// service of its own (a registration that refuses aggregates is as good as one that picks the right entity)
+		spDoc := strings.TrimSpace(strings.TrimPrefix(strings.TrimSpace(string(c.SPD.XML())), `<?xml version="1.0" encoding="UTF-8"?>`))
+		foreign := `<md:EntityDescriptor xmlns:md="` + spsim.NSMD + `" entityID="https://evil-aggregate.example/metadata"><md:SPSSODescriptor protocolSupportEnumeration="` + spsim.NSP + `"><md:AssertionConsumerService Binding="` + spsim.BindPost + `" Location="https://evil-aggregate.example/acs" index="0" isDefault="true"/><md:AssertionConsumerService Binding="` + spsim.BindRedirect + `" Location="https://evil-aggregate.example/acs-r" index="1"/></md:SPSSODescriptor></md:EntityDescriptor>`
+		c.AlsoRegister = append(c.AlsoRegister, `<md:EntitiesDescriptor xmlns:md="`+spsim.NSMD+`">`+foreign+spDoc+`</md:EntitiesDescriptor>`)
+		r.Count("registrations_also_offered_as_an_aggregate", 1)
+	}
 	other := stdSP(1)
 	other.EntityID = "https://spb.example/metadata"
 	other.ACS = []spsim.ACS{{Binding: spsim.BindPost, Location: "https://spb.example/acs", Index: "0"}, {Binding: spsim.BindRedirect, Location: "https://spb.example/acs-r", Index: "1"}}
@@ -391,6 +399,32 @@ func c02Logout(r *core.Run, idx int, rng *rand.Rand) {
 			viol("target_not_registered", fmt.Sprintf("%s delivery to %q, registered SingleLogoutService locations %v", dd.Kind, dd.Target, d.SLO))
 		} else if dd.Msg != nil && dd.Msg.Destination != hit.Location {
 			viol("destination_differs_from_target", fmt.Sprintf("Destination %q, SingleLogoutService delivered to %q", dd.Msg.Destination, hit.Location))
+		}
+	}
+	// afterwards, on the same provider: a request that names nobody (it does not decode, has no Issuer, or names a
+	// stranger). Its reply has no registered party to go to, whoever was served before
+	if idx%2 == 0 {
+		l2 := conformantLogout(rng, d)
+		kind := []string{"undecodable", "no_issuer_element", "issuer_unregistered", "not_base64"}[rng.Intn(4)]
+		switch kind {
+		case "no_issuer_element":
+			l2.NoIssuer = true
+		case "issuer_unregistered":
+			l2.Issuer = "https://nobody-" + randHex(rng, 3) + ".example/metadata"
+		}
+		x2 := l2.XML(rng)
+		if kind == "undecodable" {
+			x2 = x2[:len(x2)/3]
+		}
+		s2 := ssoSend{Path: env.PathSLO, Binding: []string{"redirect", "post"}[rng.Intn(2)], XML: x2, HasRelay: true, Relay: "MKfollowup"}
+		if kind == "not_base64" {
+			s2.rawSAMLRequest, s2.forceRaw = "%%%not-base64%%%", true
+		}
+		call2, _ := s2.do(e)
+		r.Count("logout_followed_by_a_request_that_names_nobody", 1)
+		if call2.Panic == "" && (call2.D.Kind == "form" || call2.D.Kind == "redirect") {
+			r.Violate(core.Violation{Clause: "target_without_registration", Class: "logout_followup|" + kind, Reason: fmt.Sprintf("the reply to a request that names nobody (%s) was delivered as %s to %q after a logout of %s had been served", kind, call2.D.Kind, call2.D.Target, d.EntityID), Workload: wl, Index: idx,
+				Case: map[string]any{"first": desc, "followup": kind}, Observed: call2.Describe()})
 		}
 	}
 }
